@@ -34,7 +34,7 @@ type batchCase struct {
 	Calls     []batchCall
 	Invalid   string // "" | mixed-tables | mixed-namespaces | duplicate | non-batchable
 	InvalidAt int
-	// Trigger: "" | drop-table-on-nsre | cancel-before | cancel-waiting | cancel-backoff |
+	// Trigger: "" | drop-table-on-nsre | cancel-before | cancel-as-reply-arrives | cancel-as-results-are-read | cancel-waiting | cancel-backoff |
 	// own-ctx-reply-held (the last call has a context of its own, cancelled while the
 	// reply to the multi-request that carries it and an earlier call is held; its
 	// result is listed first) | own-ctx-sibling-retried (the last call, alone on the
@@ -115,7 +115,7 @@ func genBatchCase(r *rand.Rand, maxCalls int) batchCase {
 		}
 		b.Calls[r.Intn(len(b.Calls))].Script = []string{"nsre"}
 	case 5:
-		b.Trigger = "cancel-before"
+		b.Trigger = []string{"cancel-before", "cancel-as-reply-arrives", "cancel-as-results-are-read", "cancel-as-results-are-read"}[r.Intn(4)]
 	case 6:
 		b.Trigger = "cancel-waiting"
 	case 7:
@@ -258,6 +258,8 @@ func runBatchCase(b batchCase, tag string) *batchRun {
 			cancel()
 		})
 	}
+	closedChan := make(chan struct{})
+	close(closedChan)
 	hold := make(chan struct{})
 	defer func() {
 		select {
@@ -354,6 +356,11 @@ func runBatchCase(b batchCase, tag string) *batchRun {
 		if b.Trigger == "cancel-waiting" {
 			go func() { time.Sleep(2 * time.Millisecond); doCancel() }()
 			return &sim.Reply{HoldDefault: hold}
+		}
+		if b.Trigger == "cancel-as-reply-arrives" {
+			// answered normally; the batch context ends the moment the reply has been
+			// written, i.e. while the client's reader is handing out the results
+			return &sim.Reply{HoldDefault: closedChan, AfterSend: doCancel}
 		}
 		if killBefore {
 			return &sim.Reply{Drop: true, KillConn: true}
@@ -464,6 +471,14 @@ func runBatchCase(b batchCase, tag string) *batchRun {
 		if err != nil {
 			panic(err)
 		}
+		if b.Trigger == "cancel-as-results-are-read" {
+			switch x := call.(type) {
+			case *hrpc.Get:
+				call = &resultWatchGet{x, doCancel}
+			case *hrpc.Mutate:
+				call = &resultWatchMutate{x, doCancel}
+			}
+		}
 		return call, opid
 	}
 	for i, c := range b.Calls {
@@ -489,9 +504,16 @@ func runBatchCase(b batchCase, tag string) *batchRun {
 	case "non-batchable":
 		sc, _ := hrpc.NewScanStr(ctx, "t")
 		var call hrpc.Call = sc
-		if b.Seed%3 == 0 {
+		switch b.Seed % 3 {
+		case 0:
 			g, _ := hrpc.NewGetStr(ctx, "t", "q1", hrpc.SkipBatch())
 			call = g
+		case 1:
+			// a check-and-put cannot travel in a multi-request (its condition has no place there)
+			p, _ := hrpc.NewPutStr(ctx, "t", "q1", map[string]map[string][]byte{"f": {"q": []byte("v")}})
+			if cp, err := hrpc.NewCheckAndPut(p, "f", "q", []byte("expected")); err == nil {
+				call = cp
+			}
 		}
 		run.insert(b.InvalidAt, call, "")
 	}
@@ -512,6 +534,36 @@ func runBatchCase(b batchCase, tag string) *batchRun {
 	run.Events = cl.Log.Snapshot()
 	cl.Close()
 	return run
+}
+
+// resultWatchGet / resultWatchMutate: calls whose owner cancels the batch
+// context at the moment SendBatch comes to collect a result that has already
+// been delivered (the result channel is looked at with the result in it).
+// The cancellation could happen then by chance; the wrapper makes it happen.
+type resultWatchGet struct {
+	*hrpc.Get
+	hook func()
+}
+
+func (g *resultWatchGet) ResultChan() chan hrpc.RPCResult {
+	ch := g.Get.ResultChan()
+	if len(ch) == 1 {
+		g.hook()
+	}
+	return ch
+}
+
+type resultWatchMutate struct {
+	*hrpc.Mutate
+	hook func()
+}
+
+func (m *resultWatchMutate) ResultChan() chan hrpc.RPCResult {
+	ch := m.Mutate.ResultChan()
+	if len(ch) == 1 {
+		m.hook()
+	}
+	return ch
 }
 
 func (r *batchRun) insert(at int, call hrpc.Call, opid string) {
